@@ -98,14 +98,15 @@ def handle (case impl : List String) : Verdict :=
       let v := v.withSpec (r1.head? != some "ok" || r2.head? != some "ok") "valid-image-rejected" s!"text: {r1.headD ""}, binary: {r2.headD ""}"
       v.withSpec (r1 != r2) "text-binary-differ" "text and binary encodings of the same image decode differently"
     | _, _ => bad "hex"
-  | "write" :: rest | "writem" :: rest | "writeb" :: rest =>
+  | "write" :: rest | "writem" :: rest | "writeb" :: rest | "save" :: rest | "savem" :: rest | "saveb" :: rest =>
+    -- save*/: the same view through save_ppm + load_pnm on a temp file: same bytes, same image
     let parsed : Option (Nat × Nat × Nat × Nat × Nat × Nat × Nat × Nat × List UInt8) :=
       match case with
       | [_, w, h, s, n, l, t, r, b, px] =>
         match [w, h, s, n, l, t, r, b].map String.toNat?, parseHexBytes? px with
         | [some w, some h, some s, some n, some l, some t, some r, some b], some px => some (w, h, s, n, l, t, r, b, px)
         | _, _ => none
-      | ["writeb", w, h, px] =>
+      | [_, w, h, px] =>
         match w.toNat?, h.toNat?, parseHexBytes? px with
         | some w, some h, some px => some (w, h, w, w * h, 0, 0, w, h, px)
         | _, _, _ => none
@@ -146,6 +147,14 @@ def handle (case impl : List String) : Verdict :=
         let v := v.withSpec (implJoined.headD "" != "w:" ++ bytesToHex file) "ppm-bytes-wrong" "write_ppm output is not the PPM file of the view"
         v.withSpec (implJoined.getD 1 "" != "p:" ++ " ".intercalate ["ok", toString (r - l), toString (b - t), pixHex content])
           "roundtrip-mismatch" s!"reading back gave {((implJoined.getD 1 "").take 40).toString}"
+  | ["loaderr", kind] =>
+    -- the model has no file system: a missing path is Err(Io) (From<io::Error>), a directory is some Err
+    -- (File::open succeeds, the first read fails, read_pnm's map_while(ok) ends the stream: UnexpectedEnd)
+    let tok := impl.headD ""
+    let v : Verdict := { tags := ["loaderr", kind] }
+    let v := v.withDiff (if kind == "missing" then impl != ["err:io"] else !(tok.startsWith "err:") || impl.length != 1)
+      s!"expected an error, got {" ".intercalate impl}"
+    v.withSpec (isPanic tok) "load-panics" s!"load_pnm of a {kind} path gave {tok}"
   | ["rsnum", bits, hex] =>
     match parseHexBytes? hex with
     | none => bad "hex"
@@ -163,6 +172,19 @@ def handle (case impl : List String) : Verdict :=
     match n.toNat? with
     | some n => (Verdict.ok ["rsdec"]).withDiff (impl != [bytesToHex (decimal n)]) s!"model {bytesToHex (decimal n)}"
     | none => bad "rsdec"
+  | [op, k, hex] =>
+    if op != "readshort" && op != "readfail" then bad "unknown op" else
+    match k.toNat?, parseHexBytes? hex with
+    | some k, some bytes =>
+      -- short reads do not change the byte stream; an io::Error ends it (read_pnm: map_while(io::Result::ok))
+      let seen := if op == "readfail" then bytes.take k else bytes
+      let want := parseTok seen
+      let v : Verdict := { tags := [op, formatTag bytes, resultKind impl] }
+      let v := v.withDiff (impl != want) s!"model {" ".intercalate want}"
+      match judgeDecode seen impl with
+      | some (key, m) => v.withSpec true key m
+      | none => v
+    | _, _ => bad "read op"
   | _ => bad "unknown op"
 
 end Retro.Drv.C13
